@@ -10,6 +10,7 @@ CONSTANTS
   FirstWriteKeeps = FALSE
   HookEditsOld = FALSE
   LendsOld = FALSE
+  MergeFiltersSrc = FALSE
   InitKinds = {"absent", "present"}
   NCases = 1
   MinOps = 1
